@@ -206,6 +206,12 @@ CHECKS = {
 }
 
 
+WALK_OWNERS = {"C03": "coerce_as", "C05": "rep_cast", "C06": ".as(unit)", "C08": "mixed + / -", "C13": "scalar * and unary -"}
+WALK_TEXT = ("  Walks: TLC -simulate on Walk.tla generates defined chains of operations (make, as, coerce_as, rep_cast, mixed + and -, scalar *, "
+             "unary -); they run against the real library and Trace_Walk.tla validates every recorded step (static rep, unit magnitude, stored value) "
+             "in behaviour mode; this check owns the %s steps.")
+
+
 def main():
     checks = []
     for pid in ALL:
@@ -219,7 +225,7 @@ def main():
             "evidence_file": "/verif/evidence/%s.json" % pid,
             "replay_cmd_template": "./check %s --replay {path}" % pid,
             "engine": "tlc+harness",
-            "level_claimed": {"category": "model_checking", "text": c["text"], "design_ref": "DESIGN.md section " + c["ref"]},
+            "level_claimed": {"category": "model_checking", "text": c["text"] + (WALK_TEXT % WALK_OWNERS[pid] if pid in WALK_OWNERS else ""), "design_ref": "DESIGN.md section " + c["ref"]},
             "level_note": c["note"],
             "technique": c["technique"],
         })
@@ -230,7 +236,7 @@ def main():
         "setup_cmd": "./setup.sh",
         "hooks": {
             "guard": "AU_VERIF_TRACE",
-            "enable": "-DAU_VERIF_TRACE (only the C12 harness is compiled with it; every other check uses the public API)",
+            "enable": "-DAU_VERIF_TRACE (reserved; no hook was needed: every check observes through the public API and sanitizer events)",
             "baseline_off_cmd": "/verif/tools/baseline.sh /repo",
             "source_commits": [],
             "add_only": True,
